@@ -4,6 +4,7 @@ import (
 	"fmt"
 	"reflect"
 	"strings"
+	"sync"
 
 	"github.com/TheManticoreProject/Manticore/network/smb/smb_v10/message/commands/command_interface"
 
@@ -224,6 +225,24 @@ func (c *Cmd) Lattice(f *Field, thorough bool) []Choice {
 				add(l, setStr(format, b))
 			}
 		}
+		// where the library leaves the buffer format to the caller, every one of the five formats is a value of the field
+		if f.Kind == KString && !blob {
+			forced := byte(0)
+			for i, g := range c.Fields {
+				if g == f && i < len(c.Forced) {
+					forced = c.Forced[i]
+				}
+			}
+			if forced == 0 {
+				for alt := byte(1); alt <= 5; alt++ {
+					if alt == format || alt == 3 { // format 0x03 has a known layout deviation of its own (C06 finding)
+						continue
+					}
+					alt := alt
+					add(fmt.Sprintf("format%d:AB", alt), setStr(alt, []byte("AB")))
+				}
+			}
+		}
 	case KResumeKey:
 		for _, start := range []byte{0x01, 0xE0} {
 			start := start
@@ -388,7 +407,51 @@ func (a *Assign) Build() (command_interface.CommandInterface, error) {
 	if err := c.applyRelations(inst, a.Dev); err != nil {
 		return nil, err
 	}
+	// a non-prescribed buffer format is a value of the field only where the library leaves the format to
+	// the caller: if the library's own Marshal overwrites it, the assignment is not one the structure can hold
+	for _, f := range c.Fields {
+		k := a.Dev[f.Pos]
+		if f.Kind != KString || k == 0 || !strings.HasPrefix(a.Lat[f.Pos][k-1].Label, "format") {
+			continue
+		}
+		want := sv.Field(f.Index).FieldByName("BufferFormat").Uint()
+		if !formatHonoured(a, f, want) {
+			return nil, fmt.Errorf("%s.%s: the library forces another buffer format than %d", c.Name, f.Name, want)
+		}
+	}
 	return inst, nil
+}
+
+var honoured sync.Map // "Cmd.Field.format" -> bool
+
+// formatHonoured reports whether the library's Marshal keeps a caller-chosen buffer format of field f
+// (decided once per command/field/format on the all-default assignment with only that field set).
+func formatHonoured(a *Assign, f *Field, want uint64) bool {
+	key := fmt.Sprintf("%s.%s.%d", a.C.Name, f.Name, want)
+	if v, ok := honoured.Load(key); ok {
+		return v.(bool)
+	}
+	ok := false
+	func() {
+		defer func() { recover() }()
+		inst := a.C.New()
+		sv := reflect.ValueOf(inst).Elem()
+		for _, g := range a.C.Fields {
+			if err := a.C.setBase(g, sv.Field(g.Index)); err != nil {
+				return
+			}
+		}
+		setStr(byte(want), []byte("AB"))(sv.Field(f.Index))
+		if err := a.C.applyRelations(inst, make([]int, len(a.Dev))); err != nil {
+			return
+		}
+		if _, err := inst.Marshal(); err != nil {
+			return
+		}
+		ok = sv.Field(f.Index).FieldByName("BufferFormat").Uint() == want
+	}()
+	honoured.Store(key, ok)
+	return ok
 }
 
 func elemCount(f *Field, v reflect.Value) int {
@@ -537,4 +600,28 @@ func (a *Assign) With(pos, k int) *Assign {
 	d := append([]int{}, a.Dev...)
 	d[pos] = k
 	return &Assign{C: a.C, Full: a.Full, Dev: d, Lat: a.Lat}
+}
+
+// WithoutFormatVariants drops the "formatN:…" choices (a caller-chosen, non-prescribed buffer format):
+// they are values for the round-trip property (C04) only, not for the MS-CIFS layout checks.
+func WithoutFormatVariants(lat [][]Choice) [][]Choice {
+	out := make([][]Choice, len(lat))
+	for i, l := range lat {
+		for _, ch := range l {
+			if !strings.HasPrefix(ch.Label, "format") {
+				out[i] = append(out[i], ch)
+			}
+		}
+	}
+	return out
+}
+
+// IsFormatVariant reports whether assignment a uses such a choice.
+func (a *Assign) IsFormatVariant() bool {
+	for pos, k := range a.Dev {
+		if k > 0 && strings.HasPrefix(a.Lat[pos][k-1].Label, "format") {
+			return true
+		}
+	}
+	return false
 }
